@@ -141,6 +141,9 @@ func unmarshalList(buf []byte, ety cty.Type, path cty.Path) (cty.Value, error) {
 		return cty.ListValEmpty(ety), nil
 	}
 
+	if !cty.CanListVal(vals) {
+		return cty.NilVal, path.NewErrorf("list elements must all have the same type")
+	}
 	return cty.ListVal(vals), nil
 }
 
@@ -182,6 +185,9 @@ func unmarshalSet(buf []byte, ety cty.Type, path cty.Path) (cty.Value, error) {
 		return cty.SetValEmpty(ety), nil
 	}
 
+	if !cty.CanSetVal(vals) {
+		return cty.NilVal, path.NewErrorf("set elements must all have the same type")
+	}
 	return cty.SetVal(vals), nil
 }
 
@@ -234,6 +240,9 @@ func unmarshalMap(buf []byte, ety cty.Type, path cty.Path) (cty.Value, error) {
 		return cty.MapValEmpty(ety), nil
 	}
 
+	if !cty.CanMapVal(vals) {
+		return cty.NilVal, path.NewErrorf("map elements must all have the same type")
+	}
 	return cty.MapVal(vals), nil
 }
 
